@@ -138,6 +138,9 @@ def gen_specs():
 def cases(tier):
     for name, _ in gen_specs():
         yield dict(kind="roundtrip_generated", name=name)
+    for table in (0, 1):
+        for year in (2002, 2000.5, 1999):
+            yield dict(kind="roundtrip_own_axes", table=table, year=year)
     for lib in LIB:
         yield dict(kind="roundtrip_library", name=lib)
     ops = OPS
@@ -247,6 +250,44 @@ def run_rt_generated(case):
     return dict(states=T, transitions=5, traces=1, nontrivial=True, violations=vs[:5], counters=dict(roundtrips_generated=1))
 
 
+def run_rt_own_axes(case):
+    """a program book as a user edits it: ONE spending table (the k-th) has a year column of its own with a value in it.  The loaded program
+    set holds that value and must keep it (and its effect on the run) through export and re-read."""
+    from mc import xlsxmut as X
+
+    spec = dict(gen_specs())["combined"]
+    w = World(spec)
+    blob = X.values_only(w.progset.to_spreadsheet().tofile().getvalue())
+    wb = X.load(blob)
+    ws = wb["Spending data"]
+    heads = [r for r in range(1, ws.max_row + 1) if ws.cell(row=r, column=2).value == "Provenance"]
+    h = heads[case["table"]]
+    ncol = max(c for c in range(1, ws.max_column + 1) if ws.cell(row=h, column=c).value is not None) + 1
+    ws.cell(row=h, column=ncol).value = case["year"]
+    spend_row = h + 1
+    ws.cell(row=spend_row, column=5).value = None  # no constant: year-specific values
+    ws.cell(row=spend_row, column=7).value = 900.0
+    ws.cell(row=spend_row, column=ncol).value = 2600.0
+    ps = at.ProgramSet.from_spreadsheet(X.spreadsheet(X.dump(wb)), framework=w.F, data=w.D)
+    prog = list(ps.programs.values())[case["table"]]
+    vs = []
+    if 2600.0 not in [float(v) for v in prog.spend_data.vals]:
+        from mc.runner import HarnessError
+
+        raise HarnessError("the edited value did not arrive in the loaded program set")
+    ps2 = rt_progset(ps, w.F, w.D)
+    d = close(progset_content(ps), progset_content(ps2))
+    if d:
+        vs.append(V("progbook-content-changed", f"program book with an own year column ({case['year']}) in spending table {case['table']}: write/read changed content: {d}", None))
+    instr = at.ProgramInstructions(start_year=spec["sim"][0])
+    r1 = w.P.run_sim(w.parset, ps, instr, store_results=False)
+    r2 = w.P.run_sim(w.parset, ps2, instr, store_results=False)
+    d = sim_close(r1, r2)
+    if d:
+        vs.append(V("roundtrip-changes-simulation", f"program book with an own year column ({case['year']}) in spending table {case['table']}: the re-read program set simulates differently: {d}", None))
+    return dict(states=len(r1.model.t), transitions=2, traces=1, nontrivial=True, violations=vs[:3], counters=dict(roundtrips_own_axes=1))
+
+
 def run_rt_library(case):
     name = case["name"]
     import atomica.library as lib
@@ -274,7 +315,7 @@ def run_rt_library(case):
 
 # ------------------------------------------------------------------ (b) edit histories
 
-OPS = ["copy", "add_pop", "remove_pop", "add_program", "remove_program", "remove_program_first", "add_par", "remove_par", "sample0", "reconcile_uc", "reconcile05", "reconcile_b", "reconcile_bo", "reconcile_ub", "loadcal_match", "loadcal_extra", "loadcal_missing"]
+OPS = ["copy", "add_pop", "remove_pop", "remove_pop_label", "progset_drop_pop_label", "remove_par_label", "remove_program_label", "add_program", "remove_program", "remove_program_first", "add_par", "remove_par", "sample0", "reconcile_uc", "reconcile05", "reconcile_b", "reconcile_bo", "reconcile_ub", "loadcal_match", "loadcal_extra", "loadcal_missing"]
 
 
 class State:
@@ -309,6 +350,10 @@ class State:
                 p.meta_y_factor = old.pars[k].meta_y_factor
 
 
+def _label(spec):
+    return spec["label"] if isinstance(spec, dict) else getattr(spec, "label", spec)
+
+
 def apply_op(st, op):
     """returns a list of violations specific to the operation (load_calibration semantics)"""
     vs = []
@@ -328,13 +373,28 @@ def apply_op(st, op):
                 td.ts[new] = sc.dcp(td.ts[src])
         st.progset.add_pop(new, "Pop " + new)
         st.refresh_parset()
-    elif op == "remove_pop":
+    elif op in ("remove_pop", "remove_pop_label"):
         if len(st.D.pops) < 2:
             return vs
         victim = list(st.D.pops)[-1]
         st.D.remove_pop(victim)
-        st.progset.remove_pop(victim)
+        # the program set is told by code name or by the population's display name (both are documented)
+        if victim in st.progset.pops:
+            st.progset.remove_pop(victim if op == "remove_pop" else _label(st.progset.pops[victim]))
         st.refresh_parset()
+    elif op == "progset_drop_pop_label":
+        # the population stays in the databook; the program set stops covering it (told by display name)
+        if len(st.progset.pops) < 2:
+            return vs
+        victim = list(st.progset.pops)[-1]
+        st.progset.remove_pop(_label(st.progset.pops[victim]))
+    elif op == "remove_par_label":
+        if "vr" in st.progset.pars:
+            st.progset.remove_par(_label(st.progset.pars["vr"]))
+    elif op == "remove_program_label":
+        if len(st.progset.programs) < 2:
+            return vs
+        st.progset.remove_program(list(st.progset.programs.values())[0].label)
     elif op == "add_program":
         new = "P3" if "P3" not in st.progset.programs else "P4"
         if new in st.progset.programs:
@@ -483,4 +543,4 @@ def run_history(case):
 
 
 def run_case(case):
-    return dict(roundtrip_generated=run_rt_generated, roundtrip_library=run_rt_library, history=run_history)[case["kind"]](case)
+    return dict(roundtrip_generated=run_rt_generated, roundtrip_own_axes=run_rt_own_axes, roundtrip_library=run_rt_library, history=run_history)[case["kind"]](case)
